@@ -41,6 +41,8 @@ fn replay(prop: &str, file: &str) -> i32 {
             "total" => props_total::replay_total(&case),
             "spans" => props_total::replay_spans(&case),
             "walk" => props_fs::replay_walk(&case, prop),
+            "anchor" => props_fs::replay_anchor(&case),
+            "rootedfeed" => props_stack::replay_rootedfeed(&case),
             "depthwalk" => props_links::replay_depthwalk(&case),
             "prune" => props_fs::replay_prune(&case),
             "bytes" => {
